@@ -45,6 +45,11 @@ def scenarios() -> dict[str, dict[str, Any]]:
     return {
         "and2-built": {"spec": built(fork(2)), "hold": "StartStage:j", "workers": 2},
         "dup-initial-built": {"spec": built({"name": "dupb", "stages": [stage("j", [], [ok(), ok()]), stage("z", ["j"], [ok()])]}), "hold": "StartStage:j", "workers": 2, "dup": 1},
+        # builder-built tasks AND a builder-created before-stage: the zombie take-over and the first claimer both plan children
+        "and2-built-before": {"spec": built(fork(2, before=1)), "hold": "StartStage:j", "workers": 2},
+        # a join without tasks of its own (a pure synchronisation point)
+        "and2-notasks": {"spec": {"name": "forkn", "stages": [stage("a", [], [ok()]), stage("b0", ["a"], [ok()]), stage("b1", ["a"], [ok()]),
+                                                             stage("j", ["b0", "b1"], []), stage("z", ["j"], [ok()])]}, "hold": "StartStage:j", "workers": 2},
         "and2": {"spec": fork(2), "hold": "StartStage:j", "workers": 2},
         "and3": {"spec": fork(3), "hold": "StartStage:j", "workers": 3},
         "disc2": {"spec": fork(2, join="DISC"), "hold": "StartStage:j", "workers": 2},
@@ -110,16 +115,22 @@ def judge(c: Campaign, name: str, sc: dict[str, Any], w: World, s: Sched, pre: d
         n, rearm = starts.get(sid, (0, 0))
         if n != 1:
             viol.append((f"stage-started-{n}-times", f"{sid}: {n} durable NOT_STARTED->RUNNING transitions"))
-    for k in ("j.t0", "j.t1", "z.t0"):
+    j_tasks = len([s_ for s_ in sc["spec"]["stages"] if s_["ref"] == "j"][0]["tasks"])
+    for k in [f"j.t{i}" for i in range(j_tasks)] + ["z.t0"]:
         n = got["counts"].get(k, 0)
         if n != 1:
             viol.append((f"task-executed-{n}-times", f"{k} executed {n}x"))
+    if not j_tasks:
+        # a join without tasks completes at once: exactly one completion and exactly one start of what follows
+        done = sum(1 for _q, _st, _w, kind, ident, old, new in audit if kind == "stage" and ident == "W1-j" and new == "SUCCEEDED" and old != new)
+        if done != 1:
+            viol.append((f"stage-completed-{done}-times", f"task-less join j: {done} durable transitions to SUCCEEDED"))
     first_task_inserts = sum(1 for _q, _st, _w, op, tbl, _rid, mt, p in qlog if op == "ins" and tbl == "q" and mt == "StartTask"
                              and json.loads(p).get("stage_id") == "W1-j" and str(json.loads(p).get("task_id", "")).endswith("-t0"))
     task_rows = w.scalar("SELECT COUNT(*) FROM task_executions WHERE stage_id = 'W1-j'")
-    if task_rows != 2:
-        viol.append((f"stage-has-{task_rows}-task-rows", f"stage j was planned with 2 tasks but has {task_rows} task rows"))
-    if first_task_inserts != 1:
+    if task_rows != j_tasks:
+        viol.append((f"stage-has-{task_rows}-task-rows", f"stage j was planned with {j_tasks} tasks but has {task_rows} task rows"))
+    if first_task_inserts != (1 if j_tasks else 0):
         viol.append((f"starttask-queued-{first_task_inserts}-times", f"{first_task_inserts} StartTask messages queued for j's first task"))
     if got["workflow"] != "SUCCEEDED":
         viol.append(("workflow-not-succeeded", f"workflow {got['workflow']}; stages {got['stages']}; worker errors {s.errors[:2]}"))
